@@ -11,10 +11,10 @@ CONSTANTS
   GNL2 = 1
   GNC = 1
   GNRs = {1, 3}
-  GCoarse = 5
+  GCoarse = 15
   GThin2 = 5
-  GStride = 120
-  GStrideM = 60
-  GStrideN = 90
+  GStride = 20
+  GStrideM = 4
+  GStrideN = 25
   GRunLen = 5
-  GRunStride = 151
+  GRunStride = 80
